@@ -19,9 +19,9 @@ MANIFEST = dict(
          "(decoded bytes = concatenation / error / first stream only) decides, the model's predicted outcome and byte count must also "
          "match, and the reader model is run by TLC over the strict-parser records of the real inputs (trace validation).",
     ref="4.8, 6/C12",
-    note="TLC results hold for <= 3 streams / files and the stated padding values; 1-3 zero bytes of padding at the very end of the input "
-         "(no stream follows) are accepted by the crate and are not judged (the statement speaks of padding separating streams); trailing "
-         "non-stream bytes in multi-stream mode are predicted by the model (error) but not judged.",
+    note="TLC results hold for <= 3 streams / files and the stated padding values; padding after the last stream is judged like padding "
+         "between streams (must be a multiple of four); trailing non-stream bytes in multi-stream mode are predicted by the model "
+         "(error) but not judged.",
     ready=True)
 
 
